@@ -302,6 +302,10 @@ fn handle(line: &str) -> String {
                         b = b.with_file(&src, rpm::FileOptions::new("/d/f0"))?;
                         b = b.with_file(&src, rpm::FileOptions::new("/e/f1").user("u").group("g"))?;
                     }
+                    "utf8name" => {
+                        b = b.with_file(&src, rpm::FileOptions::new("/d/gr\u{fc}\u{df}e"))?;
+                        b = b.with_file(&src, rpm::FileOptions::new("/d/z"))?;
+                    }
                     "scriptlets" => {
                         b = b.pre_install_script(sl("echo pre")).post_install_script(sl("echo pos")).pre_uninstall_script(sl("echo pre")).post_uninstall_script(sl("echo pos"))
                             .pre_trans_script(sl("echo pre")).post_trans_script(sl("echo pos")).pre_untrans_script(sl("echo pre")).post_untrans_script(sl("echo pos"));
